@@ -308,6 +308,23 @@ def r8(rr, repo):
         else:
             rr.unresolved('Frame.__init__: a path does not decide what kind of source it was given', mod, fn, witness=p.pc_text()[:120], key='init-row')
     rr.ob('Frame.__init__ distinguishes dict / Frame / no image / array sources', rows >= {'dict', 'frame', 'none', 'array'}, mod, fn, witness=str(sorted(rows)), key='init-rows')
+    # the label says what the pixels are: a 3-channel array is never labelled GRAY (the label may be inherited from the Frame passed as data), and relabelling an existing
+    # frame never crosses between GRAY and colour (it does not convert pixels) - both are refused; `.gray` of such a frame would hand out colour pixels as the GRAY view
+    nlab = 0
+    for p in paths:
+        if p.outcome is not None and p.outcome[0] == 'raise':
+            continue
+        lab = [e for e in p.events if e.kind == 'store' and e.term == 'self._Frame__shapef' and e.args[0].startswith(f'({P_img}.shape, ') and "'GRAY'" not in e.args[0]]
+        if not lab:
+            continue
+        nlab += 1
+        not_gray = any(k.startswith('eq(') and "'GRAY'" in k and 'format' in k and v is False for k, v in p.pc)
+        rr.ob('a 3-channel array is labelled only after GRAY has been ruled out for the label', not_gray, mod, lab[0].node, witness=p.pc_text()[-200:], key='colour-never-labelled-gray')
+    rr.floor('construction paths that label a 3-channel array', nlab, 1, mod, fn)
+    relabel = [n for n in walk_scope(fn) if isinstance(n, ast.If) and any(isinstance(x, ast.Raise) for x in n.body) and "'GRAY'" in U(n.test) and ('len(' in U(n.test) or 'ndim' in U(n.test))
+               and any(pol and f'isinstance({P_img}, Frame)' in U(t) for t, pol in q.guards_of(n, stop=fn))]
+    rr.ob('relabelling an existing frame is refused when it would cross between GRAY and colour (GRAY label <=> 2-D image)', len(relabel) == 1 and '!=' in U(relabel[0].test), mod,
+          relabel[0] if relabel else fn, witness=U(relabel[0].test)[:120] if relabel else 'no such check in the Frame branch of the constructor', key='relabel-keeps-grayness')
     # invalid arrays are refused
     bad = [p for p in paths if p.outcome is not None and p.outcome[0] == 'raise']
     rr.floor('refusing paths of Frame.__init__', len(bad), 2, mod, fn)
